@@ -111,6 +111,16 @@ def repr_case(c):
     r["deq_worst"] = {"err": float(err.max()), "mag": float(mag.max())}
     r["awq_dtype"] = str(awq.dtype)
     r["awq_data_is_v2"] = bool(torch.equal(awq._data._data, packed.pack_v2(ungroup(codes, axis=0, orig_shape=std.shape))))
+    # serialization must go through the standard representation
+    try:
+        dest = {}
+        awq.save_to_state_dict(dest, "w.", False)
+        pl = dest.get("w._data._data")
+        r["saved"] = {"keys": sorted(dest.keys()), "payload_dtype": None if pl is None else str(pl.dtype), "standard_meta": all(k in dest for k in ("w._data.bits", "w._data.size", "w._data.stride")),
+                      "scale_equal": "w._scale" in dest and list(dest["w._scale"].shape) == list(std._scale.shape) and bool(torch.equal(dest["w._scale"], std._scale)),
+                      "all_plain": all(isinstance(v, str) or type(v) is torch.Tensor for v in dest.values())}
+    except Exception as ex:  # noqa: BLE001
+        r["saved"] = {"exn": type(ex).__name__ + ": " + str(ex)[:200]}
     # back conversion (serialization / leaving the GPU)
     try:
         back = awq.qbits_tensor()
